@@ -73,6 +73,7 @@ void _ZNSt6thread6_StateD2Ev(void *a) { }
 #include <math.h>
 #ifdef __CPROVER__
 uint64_t __CPROVER_uninterpreted_vt_sqrt(uint64_t);
+unsigned nondet_stub_uint(void);
 double vt_sqrt(double x)
 {
     union { double d; uint64_t u; } a, r;
@@ -81,6 +82,20 @@ double vt_sqrt(double x)
     r.u = __CPROVER_uninterpreted_vt_sqrt(a.u);
     if (x > 0.0) { __CPROVER_assume(r.d > 0.0); __CPROVER_assume((x == (1.0 / 0.0)) == (r.d == (1.0 / 0.0))); }
     else __CPROVER_assume(r.d != r.d);
+#ifdef VT_SQRT_ACCURATE
+    /* optional accuracy contract (costs three multiplications per call): r*r within 4 ulp-ish of x */
+    if (x > 0.0 && x < 1e300) { double rr = r.d * r.d; __CPROVER_assume(rr >= x * (1.0 - 4e-16) && rr <= x * (1.0 + 4e-16)); }
+#endif
+    if (x > 0.0)
+    {
+        unsigned k;
+        k = nondet_stub_uint();   /* stub-internal draw: recorded in traces, skipped by the native replay (the IR build calls the real sqrt) */
+#ifdef VT_STUB_EXACT_REGION
+        /* second attempt after a counterexample the real sqrt does not reproduce: only perfect squares k*k, k <= 64, with r == k */
+        __CPROVER_assume(k >= 1 && k <= 64 && x == (double)(k * k));
+        r.d = (double)k;
+#endif
+    }
     return r.d;
 }
 #else
